@@ -30,12 +30,12 @@ ALPHABET = (
     + [("lp_hamsys", d, f) for d in DEGS[:2] for f in FORMS[:2]]
     + [("lp_genfun", d) for d in DEGS[:2]] + [("lp_hams", d) for d in DEGS[:2]]
     + [("lp_read", n) for n in ("position", "energy", "jacobi", "eigenvalues", "linear_data", "normal_form_transform", "is_stable")]
-    + [("bad_degree",), ("save_load",)]
+    + [("bad_degree",), ("save_load",), ("lp_save_load",), ("sys_save_load",)]
     + [("map_compute", s, o) for s in range(len(SECTIONS)) for o in range(len(MAPOPTS))]
     + [("map_refetch",), ("map_points", 0), ("map_points", 1), ("map_states", 0), ("map_set_strategy", 0), ("map_set_strategy", 1), ("map_save_load",)]
 )
 WEIGHTS = {"setdeg": 1.5, "cm_ham": 1.2, "read_degree": 0.8, "compute": 1.0, "to_synodic4": 0.6, "to_synodic2": 0.5, "to_cm": 0.5, "lp_ham": 1.0,
-           "lp_get_cm": 1.0, "lp_read": 0.9, "lp_hamsys": 0.6, "lp_genfun": 0.4, "lp_hams": 0.4, "bad_degree": 0.4, "save_load": 0.2, "map_compute": 1.6, "map_refetch": 0.5, "map_points": 0.8, "map_states": 0.4, "map_set_strategy": 0.7, "map_save_load": 0.4}
+           "lp_get_cm": 1.0, "lp_read": 0.9, "lp_hamsys": 0.6, "lp_genfun": 0.4, "lp_hams": 0.4, "bad_degree": 0.4, "save_load": 0.2, "lp_save_load": 0.25, "sys_save_load": 0.2, "map_compute": 1.6, "map_refetch": 0.5, "map_points": 0.8, "map_states": 0.4, "map_set_strategy": 0.7, "map_save_load": 0.4}
 REDUCED = [("setdeg", 3), ("setdeg", 5), ("cm_ham", 5), ("cm_ham", 4), ("read_degree",), ("compute", "center_manifold_real"), ("to_synodic4",),
            ("lp_ham", 4, "physical"), ("lp_get_cm", 4), ("map_compute", 0, 0), ("map_compute", 0, 1), ("map_refetch",)]
 MUTATORS = {"setdeg", "cm_ham", "bad_degree", "save_load"}
@@ -227,6 +227,32 @@ def run_history(ctx: RunCtx, U) -> None:
                                                            f"before the round trip {c['deg']} | history: {hist}")
             log.add("op", entry, "ok")
             mutated = True
+            continue
+        if k in ("lp_save_load", "sys_save_load"):
+            # round trip of the libration point / of its system: every cheap observable of the reloaded object must equal the original's
+            names = ("position", "energy", "jacobi", "eigenvalues", "linear_data", "is_stable")
+            path = base.tmp_path(f"{k}_{len(hist)}_{j}.pkl")
+            src = c["lp"] if k == "lp_save_load" else c["lp"].system
+            out = attempt(lambda: src.save(path))
+            if out.failed:
+                raise Violation(f"C20/{k}/save-raised", f"{out.kind()}: {out.exc} | history: {hist}")
+            out = attempt(lambda: type(src).load(path))
+            try:
+                os.remove(path)
+            except OSError:
+                pass
+            if out.failed:
+                raise Violation(f"C20/{k}/load-raised", f"{out.kind()}: {out.exc} | history: {hist}")
+            lp2 = out.value if k == "lp_save_load" else attempt(lambda: out.value.get_libration_point(c["where"][1])).value
+            if k == "sys_save_load" and (lp2 is None or float(out.value.mu) != float(c["lp"].system.mu)):
+                raise Violation("C20/sys_save_load/roundtrip-mu", f"reloaded system has mu {getattr(out.value, 'mu', None)!r}, saved with {c['lp'].system.mu!r} | history: {hist}")
+            for nm in names:
+                a, b = attempt(lambda: _norm(getattr(c["lp"], nm))), attempt(lambda: _norm(getattr(lp2, nm)))
+                if a.failed != b.failed or (not a.failed and not eq(a.value, b.value)):
+                    raise Violation(f"C20/{k}/roundtrip-{nm}", f"{nm} of the reloaded object is {brief(b.value) if not b.failed else b.kind()}, of the original "
+                                                               f"{brief(a.value) if not a.failed else a.kind()} | history: {hist}")
+            log.add("op", entry, "ok")
+            ctx.probe("reload_compared")
             continue
         # ------------------------------------------------------------ map operations
         if k in ("map_compute", "map_refetch", "map_points", "map_states", "map_set_strategy", "map_save_load"):
